@@ -142,6 +142,30 @@ def check_scheduled(W, B, n_batches_kind, seed):
     return None
 
 
+def check_shared_child():
+    """the result depends only on the last factor a transform received - also when that factor arrives through another composition
+    that shares the child, through a nested composition, or directly"""
+    import kappadata.transforms as T
+
+    def strength(t):
+        return (t.brightness_lb, t.brightness_ub)
+    full = T.KDColorJitter(brightness=0.4, contrast=0.4, saturation=0.2, hue=0.1)
+    ref = strength(full)
+    child = T.KDColorJitter(brightness=0.4, contrast=0.4, saturation=0.2, hue=0.1)
+    view0, view1 = T.KDComposeTransform([child]), T.KDComposeTransform([child])
+    for steps in ([(view0, 0.0), (view1, 1.0)], [(view0, 1.0), (child, 0.0), (view0, 1.0)], [(view1, 0.5), (view0, 0.0), (view1, 0.5), (view0, 1.0)],
+                  [(T.KDComposeTransform([view0]), 0.0), (view0, 1.0)]):
+        for t, f in steps:
+            t.scale_strength(f)
+        last = steps[-1][1]
+        exp = (1 - last * (1 - ref[0]), 1 + last * (ref[1] - 1))
+        got = strength(child)
+        if abs(got[0] - exp[0]) > 1e-9 or abs(got[1] - exp[1]) > 1e-9:
+            return {"what": "a shared / nested / directly scaled child is not at the strength of the last factor it was given",
+                    "factors": [f for _, f in steps], "observed": got, "expected": exp}
+    return None
+
+
 def search(limit, seed):
     rng = random.Random(seed)
     n = 0
@@ -159,6 +183,11 @@ def search(limit, seed):
             return r, n
         if n >= limit:
             break
+    n += 1
+    r = check_shared_child()
+    if r is not None:
+        r["input"] = {"scenario": "child shared between two compositions"}
+        return r, n
     for W, B, kind in itertools.product((1, 2, 3), (1, 2, 4), ("updates", "samples", "epochs")):
         n += 1
         r = check_scheduled(W, B, kind, seed)
